@@ -17,6 +17,28 @@ pub struct Msg {
     pub id: u64,
     pub text: String,
     pub blob: Vec<u8>,
+    /// last field: when set, serializing the message fails half-way (after the other fields)
+    #[serde(default)]
+    pub poison: Poison,
+}
+
+/// A field that refuses to be serialized when set (messages that cannot be encoded exist:
+/// maps with non-string keys under JSON, sequences of unknown length under bincode, ...).
+#[derive(Clone, Copy, Debug, Default, PartialEq, Eq, Hash)]
+pub struct Poison(pub bool);
+impl Serialize for Poison {
+    fn serialize<S: serde::Serializer>(&self, s: S) -> Result<S::Ok, S::Error> {
+        if self.0 {
+            Err(serde::ser::Error::custom("this message cannot be serialized"))
+        } else {
+            s.serialize_bool(false)
+        }
+    }
+}
+impl<'de> Deserialize<'de> for Poison {
+    fn deserialize<D: serde::Deserializer<'de>>(d: D) -> Result<Self, D::Error> {
+        bool::deserialize(d).map(Poison)
+    }
 }
 
 pub mod s1 {
@@ -44,11 +66,14 @@ pub struct ServiceDef {
     pub name: String,
     pub package: String,
     pub methods: Vec<MethodDef>,
+    /// with an empty package: call `.package("")` explicitly instead of leaving it unset
+    #[serde(default)]
+    pub package_set_explicitly: bool,
 }
 
 fn build_service(d: &ServiceDef) -> anemo_build::manual::Service {
     let mut b = anemo_build::manual::Service::builder().name(&d.name);
-    if !d.package.is_empty() {
+    if !d.package.is_empty() || d.package_set_explicitly {
         b = b.package(&d.package);
     }
     for m in &d.methods {
@@ -204,7 +229,7 @@ pub fn token_case(d: &ServiceDef, obs: &mut Obs) -> Result<(), Fail> {
     }
     vensure!(ss.arms.len() == d.methods.len(), "c17:server-route", "{} match arms for {} methods", ss.arms.len(), d.methods.len());
     obs.evals(d.methods.len() as u64);
-    obs.label(if d.package.is_empty() { "package:empty" } else if d.package.contains('.') { "package:dotted" } else { "package:single" });
+    obs.label(if d.package.is_empty() { if d.package_set_explicitly { "package:empty-set-explicitly" } else { "package:unset" } } else if d.package.contains('.') { "package:dotted" } else { "package:single" });
     if !d.methods.is_empty() {
         obs.nontrivial(d);
     }
@@ -222,18 +247,18 @@ impl Part for Definitions {
     type Case = ServiceDef;
     fn name(&self) -> &'static str { "definitions" }
     fn rule(&self) -> &'static str {
-        "random service definitions (identifier names, package empty / single / dotted, 0-8 methods with distinct names and distinct route names, either codec, raw-bytes flag) through client::generate and server::generate of the CURRENT anemo-build; the token streams are parsed with syn; oracle: SERVICE_NAME == [package '.'] name; for every method the client's only route literal == '/' + SERVICE_NAME + '/' + route_name (so it lies under the prefix the router registers), the server has exactly one match arm with that literal, the arm dispatches to <route_name>Svc, and that service invokes the trait method of the same name; non-trivial = definition with >=1 method; distinct by definition"
+        "random service definitions (identifier names, package unset / explicitly empty / single / dotted, 0-8 methods with distinct names and distinct route names, either codec, raw-bytes flag) through client::generate and server::generate of the CURRENT anemo-build; the token streams are parsed with syn; oracle: SERVICE_NAME == [package '.'] name; for every method the client's only route literal == '/' + SERVICE_NAME + '/' + route_name (so it lies under the prefix the router registers), the server has exactly one match arm with that literal, the arm dispatches to <route_name>Svc, and that service invokes the trait method of the same name; non-trivial = definition with >=1 method; distinct by definition"
     }
     fn strategy(&self, _t: Tier) -> BoxedStrategy<ServiceDef> {
         let pkg = prop_oneof![2 => Just(String::new()), 2 => "[a-z][a-z0-9]{0,6}", 3 => "[a-z][a-z0-9]{0,5}(\\.[a-z][a-z0-9]{0,5}){1,3}"];
         let method = (ident_strategy(), ident_strategy(), any::<bool>(), prop::bool::weighted(0.2)).prop_map(|(name, route_name, json, raw)| MethodDef { name, route_name, json, raw });
-        (ident_strategy(), pkg, prop::collection::vec(method, 0..9))
-            .prop_map(|(name, package, mut methods)| {
+        (ident_strategy(), pkg, prop::collection::vec(method, 0..9), any::<bool>())
+            .prop_map(|(name, package, mut methods, package_set_explicitly)| {
                 // distinct method names and route names (a definition with duplicates does not compile anyway)
                 let mut seen_n = std::collections::HashSet::new();
                 let mut seen_r = std::collections::HashSet::new();
                 methods.retain(|m| seen_n.insert(m.name.clone()) && seen_r.insert(m.route_name.clone()));
-                ServiceDef { name, package, methods }
+                ServiceDef { name, package, methods, package_set_explicitly }
             })
             .boxed()
     }
@@ -245,6 +270,13 @@ impl Part for Definitions {
 #[derive(Clone, Default)]
 pub struct Log(Arc<Mutex<Vec<(String, Msg)>>>);
 
+impl Log {
+    /// names of the handler methods invoked so far, in order
+    pub fn invoked(&self) -> Vec<String> {
+        self.0.lock().unwrap().iter().map(|(n, _)| n.clone()).collect()
+    }
+}
+
 /// Planned handler behaviour, a pure function of the request message.
 fn plan(tag: &str, m: &Msg) -> Result<Response<Msg>, Status> {
     if let Some(rest) = m.text.strip_prefix("err:") {
@@ -255,7 +287,8 @@ fn plan(tag: &str, m: &Msg) -> Result<Response<Msg>, Status> {
         }
         Err(s)
     } else {
-        Ok(Response::new(Msg { id: m.id.wrapping_add(1), text: format!("{tag}|{}", m.text), blob: m.blob.iter().rev().cloned().collect() }).with_header("x-handler", tag))
+        // "poisonresp:" = the handler answers with a message that cannot be serialized
+        Ok(Response::new(Msg { id: m.id.wrapping_add(1), text: format!("{tag}|{}", m.text), blob: m.blob.iter().rev().cloned().collect(), poison: Poison(m.text.starts_with("poisonresp:")) }).with_header("x-handler", tag))
     }
 }
 
@@ -281,10 +314,11 @@ macro_rules! impl_echo {
             async fn raw(&self, r: Request<Msg>) -> Result<Response<Bytes>, Status> {
                 let tag = concat!($tag, ".raw");
                 self.0.lock().unwrap().push((tag.to_string(), r.body().clone()));
-                plan(tag, r.body()).map(|resp| {
+                plan(tag, r.body()).and_then(|resp| {
                     let (parts, body) = resp.into_parts();
-                    let bytes = if $raw_json { serde_json::to_vec(&body).unwrap() } else { bincode::serialize(&body).unwrap() };
-                    Response::from_parts(parts, Bytes::from(bytes))
+                    let bytes = if $raw_json { serde_json::to_vec(&body).map_err(|e| e.to_string()) } else { bincode::serialize(&body).map_err(|e| e.to_string()) };
+                    // a raw-bytes handler encodes by itself; what it cannot encode it reports as an error status
+                    bytes.map(|b| Response::from_parts(parts, Bytes::from(b))).map_err(Status::internal)
                 })
             }
         }
@@ -409,18 +443,30 @@ where
                 let before = log.0.lock().unwrap().len();
                 let r = typed(svc.clone(), method, msg.clone()).await;
                 let after: Vec<(String, Msg)> = log.0.lock().unwrap()[before..].to_vec();
+                if msg.poison.0 {
+                    // the request cannot be encoded: an error status at the caller, nothing sent
+                    vensure!(after.is_empty(), "c17:wrong-handler", "call {i}: a request that cannot be serialized invoked handlers {:?}", after.iter().map(|a| &a.0).collect::<Vec<_>>());
+                    vensure!(r.is_err(), "c17:result-kind", "call {i} ({method}): a request that cannot be serialized surfaced as a typed success");
+                    obs.label("typed:unserializable-request");
+                    continue;
+                }
                 vensure!(after.len() == 1 && after[0].0 == method, "c17:wrong-handler", "call {i}: typed call of {method} invoked handlers {:?}", after.iter().map(|a| &a.0).collect::<Vec<_>>());
                 vensure!(after[0].1 == *msg, "c17:request-altered", "call {i}: handler {method} received a different message than was sent");
                 match (plan(method, msg), r) {
+                    (Ok(want), got) if want.body().poison.0 => {
+                        vensure!(got.is_err(), "c17:result-kind", "call {i} ({method}): the handler's response cannot be serialized, yet the client saw a typed success");
+                        obs.label("typed:unserializable-response");
+                    }
                     (Ok(want), Ok(got)) => {
                         vensure!(got.body() == want.body(), "c17:response-altered", "call {i} ({method}): response message differs from the handler's");
                         vensure!(got.headers().get("x-handler").map(|s| s.as_str()) == Some(method), "c17:response-altered", "call {i} ({method}): response header x-handler is {:?}", got.headers().get("x-handler"));
                     }
                     (Err(want), Err(got)) => {
                         vensure!(got.status() == want.status(), "c17:status-code", "call {i} ({method}): error status {:?}, the handler returned {:?}", got.status(), want.status());
-                        let want_msg = want.headers().get("status-message").cloned();
-                        let _ = want_msg;
-                        vensure!(format!("{got:?}").contains(&format!("{method}:")), "c17:status-message", "call {i} ({method}): the handler's message is missing from {got:?}");
+                        // the message travels as the status-message header and must arrive unchanged
+                        let want_msg = format!("{method}:{}", msg.text.strip_prefix("err:").unwrap_or(""));
+                        let got_msg = got.headers().get("status-message").cloned().unwrap_or_default();
+                        vensure!(got_msg == want_msg, "c17:status-message", "call {i} ({method}): the handler's status message ({} bytes) arrived as {} bytes{}", want_msg.len(), got_msg.len(), if got_msg.len() < 200 { format!(": {got_msg:?}") } else { String::new() });
                         for (k, v) in want.headers() {
                             vensure!(got.headers().get(k) == Some(v), "c17:status-headers", "call {i} ({method}): header {k} of the handler's status is missing or changed");
                         }
@@ -518,10 +564,10 @@ impl Part for Calls {
     type Case = CallCase;
     fn name(&self) -> &'static str { "typed-calls" }
     fn rule(&self) -> &'static str {
-        "three services compiled into the harness by its build.rs from the CURRENT anemo-build (no package / dotted package / single package; route names that are prefixes of each other; the same service and route names in two services; both codecs; raw-bytes handlers), all mounted on one Router with add_rpc_service, called in-process and over the simulated network: typed calls with generated messages and planned handler results (Ok(message) or Err(Status{code, message, headers})), undecodable request payloads (0-40 bytes, incl. very short ones) sent to method routes, and hostile responses (any status, any payload) handed to the typed clients; oracle: a typed call invokes exactly the same-named handler with an equal message and returns its response, or the handler's status with equal code, message and headers; undecodable payloads get a non-success status and reach no handler; undecodable or non-success responses surface as Err(Status); never a panic; non-trivial = every case except plain empty messages; distinct by case"
+        "three services compiled into the harness by its build.rs from the CURRENT anemo-build (no package / dotted package / single package; route names that are prefixes of each other; the same service and route names in two services; both codecs; raw-bytes handlers), all mounted on one Router with add_rpc_service, called in-process and over the simulated network: typed calls with generated messages (some of which cannot be serialized, as request or as the handler's response) and planned handler results (Ok(message) or Err(Status{code, message of 0-3000 bytes incl. multi-byte text, headers})), undecodable request payloads (0-40 bytes, incl. very short ones) sent to method routes, and hostile responses (any status, any payload) handed to the typed clients; oracle: a typed call invokes exactly the same-named handler with an equal message and returns its response, or the handler's status with equal code, message and headers; a message that cannot be serialized surfaces as an error status and leaves every later call intact; undecodable payloads get a non-success status and reach no handler; undecodable or non-success responses surface as Err(Status); never a panic; non-trivial = every case except plain empty messages; distinct by case"
     }
     fn strategy(&self, _t: Tier) -> BoxedStrategy<CallCase> {
-        let msg = (any::<u64>(), prop_oneof![3 => "[a-z ]{0,12}", 2 => "err:[a-z]{0,8}", 1 => "\\PC{0,20}"], prop::collection::vec(any::<u8>(), 0..40)).prop_map(|(id, text, blob)| Msg { id, text, blob });
+        let msg = (any::<u64>(), prop_oneof![6 => "[a-z ]{0,12}", 4 => "err:[a-z]{0,8}", 1 => "err:\\PC{300,1500}", 1 => "err:[a-z]{1000,3000}", 2 => "\\PC{0,20}", 1 => "poisonresp:[a-z]{0,4}"], prop::collection::vec(any::<u8>(), 0..40), prop::bool::weighted(0.08)).prop_map(|(id, text, blob, poison)| Msg { id, text, blob, poison: Poison(poison) });
         let garbage = prop_oneof![2 => prop::collection::vec(any::<u8>(), 0..16), 2 => prop::collection::vec(any::<u8>(), 16..41), 1 => "[ -~]{0,30}".prop_map(|s| s.into_bytes())];
         let call = prop_oneof![
             5 => (0u8..12, msg).prop_map(|(m, msg)| Call::Typed(m, msg)),
